@@ -214,7 +214,7 @@ func checkC06(c *chk.Ctx) {
 		}
 		oc.built = em.Built
 		if !em.Results["go-http"].OK() {
-			oc.skipped = "refused by go-http"
+			oc.skipped = "refused by go-http: " + firstN(em.Results["go-http"].Error, 200)
 		}
 		docs, lines, derr := docsOf(c, set, em.Built, e.Schema, false)
 		if derr != "" {
@@ -241,6 +241,9 @@ func checkC06(c *chk.Ctx) {
 		}
 		if oc.skipped != "" {
 			nSkipped++
+			if os.Getenv("VERIF_DEBUG") != "" {
+				fmt.Fprintln(os.Stderr, "skipped", oc.ex.Fv, oc.skipped)
+			}
 			continue
 		}
 		specs = append(specs, work.PkgSpec{ImportPath: "scratch/" + oc.pkg, Server: true})
@@ -360,6 +363,11 @@ func checkC06(c *chk.Ctx) {
 					continue
 				}
 				jt, err := jsonv.ParseJSON(unb64s(e["bodyB64"]))
+				// the probe bodies are fixed texts: where the schema's rules reject them the answer is the
+				// 400 of the validation step, and is judged as such
+				if st, ok := e["status"].(float64); ok && int(st) == 400 {
+					want = "400"
+				}
 				sch := opSchema(oc.doc.tree, "Do", "response", want)
 				if sch == nil {
 					add(map[string]any{"event": "Check", "rpc": "Do", "dir": "response", "status": want, "hasVal": false, "ok": false, "val": nullTree, "json": nullTree, "sch": nullTree})
